@@ -75,6 +75,8 @@ OWNERSHIP_EXCEPTIONS = {
     ('OpusCustomEncoder', 'lfe'): 'internal request',
     ('OpusCustomEncoder', 'energy_mask'): 'internal pointer request',
     ('OpusEncoder', 'energy_masking'): 'internal pointer request',
+    ('OpusCustomEncoder', 'end'): 'custom-modes builds only: with in-band signalling the coded end band is written to / read from the packet header each frame (CELT_SET_END_BAND is an internal request)',
+    ('OpusCustomDecoder', 'end'): 'custom-modes builds only: with in-band signalling the end band is taken from the packet header each frame',
 }
 
 
